@@ -51,7 +51,12 @@ def main(argv):
                 ops.append(['load', i, d])
                 w.append([1, i, G.json_sx(d)])
                 held[i] = d
-            elif k < 0.52 and any(isinstance(v, dict) and isinstance(v.get('elements'), list) for v in held.values()):
+            elif k < 0.50 and any(v is not None for v in held.values()):
+                # a file that cannot be decoded: load_file raises, the parser stays as it was (for the model: its document re-loaded)
+                i = rng.choice([j for j, v in held.items() if v is not None])
+                ops.append(['load_bad', i, rng.choice(['{"<class>": "root", "elements": [', '', '{"<class>": "ro', 'not json', '[1, 2'])])
+                w.append([1, i, G.json_sx(held[i])])
+            elif k < 0.56 and any(isinstance(v, dict) and isinstance(v.get('elements'), list) for v in held.values()):
                 # the caller trims the document ITS parser holds; in the model that parser now holds the trimmed document,
                 # every other parser (even one constructed from equal contents) is unaffected
                 i = rng.choice([j for j, v in held.items() if isinstance(v, dict) and isinstance(v.get('elements'), list)])
@@ -78,6 +83,8 @@ def main(argv):
                 n += 1
             elif op[0] in ('load', 'edit'):
                 cur[op[1]] = op[2]
+            elif op[0] == 'load_bad':
+                pass
             else:
                 alone_idx.append((hi, oi))
                 alone_docs.append(cur[op[1]])
@@ -93,6 +100,18 @@ def main(argv):
                 rep.violation(f'history crashed the worker: {r}', {'history': h})
             continue
         res, late = r['ok']['results'], r['ok']['changed_later']
+        neq = r['ok'].get('same_declarations_but_not_equal')
+        if neq and nv < 4:
+            nv += 1
+            rep.violation(f'two process() results with the same declarations compare unequal (==): results {neq[0]} of the history',
+                          {'history': h, 'pairs': neq})
+            continue
+        bad_loads = [oi for oi, op in enumerate(h) if op[0] == 'load_bad' and res[oi] and res[oi][0] != 'load-raised']
+        if bad_loads and nv < 4:
+            nv += 1
+            rep.violation(f'load_file of a file that is not JSON returned normally (operation {bad_loads[0]}): the parser goes on with its previous document as if '
+                          'it were the file\'s, so the result for that file depends on the earlier parse', {'history': h, 'op_index': bad_loads[0]})
+            continue
         if late and nv < 4:
             nv += 1
             rep.violation(f'an earlier process() result changed after later operations (indices {list(late)})',
